@@ -71,7 +71,7 @@ type C16Swamp struct {
 }
 
 type C16Step struct {
-	Kind string      `json:"kind"` // burst | gap | idle | close | closeduring | destroy | destroyduring | delall | shiftall | shiftexp
+	Kind string      `json:"kind"` // burst | gap | idle | close | closeduring | destroy | destroyduring | delall | shiftall | shiftexp | shiftexpsome | delsome | shiftsome
 	Ms   int         `json:"ms,omitempty"`
 	W    []C16Writer `json:"w,omitempty"`
 	Ev   []C16Event  `json:"ev,omitempty"`
@@ -250,10 +250,20 @@ func errText(err error) string {
 	return err.Error()
 }
 
-func (s *c16Sw) set(key, val string, expired bool) {
+// expiry of a written record: none, already in the past, far in the future (fixed instants: input data, not a clock read)
+const (
+	expNone   = 0
+	expPast   = 1
+	expFuture = 2
+)
+
+func (s *c16Sw) set(key, val string, exp int) {
 	kv := &hydrapb.KeyValuePair{Key: key, StringVal: &val}
-	if expired {
+	switch exp {
+	case expPast:
 		kv.ExpiredAt = timestamppb.New(time.Unix(1000000000, 0))
+	case expFuture:
+		kv.ExpiredAt = timestamppb.New(time.Unix(4102444800, 0))
 	}
 	c, t0 := s.begin()
 	ctx, cancel := s.ctx()
@@ -353,10 +363,12 @@ func (s *c16Sw) shift(keys ...string) {
 	s.end(t0, recs...)
 }
 
-func (s *c16Sw) shiftExpired() {
+func (s *c16Sw) shiftExpired() { s.shiftExpiredN(0) }
+
+func (s *c16Sw) shiftExpiredN(howMany int32) {
 	c, t0 := s.begin()
 	ctx, cancel := s.ctx()
-	resp, err := s.e.r.G.ShiftExpiredTreasures(ctx, &hydrapb.ShiftExpiredTreasuresRequest{IslandID: s.isl, SwampName: s.name, HowMany: 0})
+	resp, err := s.e.r.G.ShiftExpiredTreasures(ctx, &hydrapb.ShiftExpiredTreasuresRequest{IslandID: s.isl, SwampName: s.name, HowMany: howMany})
 	cancel()
 	var recs []c16Rec
 	if err == nil && resp != nil {
@@ -379,7 +391,7 @@ func (s *c16Sw) destroy() {
 }
 
 func c16AllKeys() []string {
-	keys := []string{"pin", "x", "k0", "k1", "k2", "k3"}
+	keys := []string{"pin", "x", "x0", "x1", "f0", "f1", "k0", "k1", "k2", "k3"}
 	for w := 0; w < 6; w++ {
 		keys = append(keys, fmt.Sprintf("i%d", w), fmt.Sprintf("p%d", w), fmt.Sprintf("s%d", w))
 	}
@@ -500,7 +512,7 @@ func (s *c16Sw) burst(bi int, st C16Step) string {
 	s.quiesceIfStale()
 	if s.open {
 		// the pin record keeps the swamp non-empty during the burst, so that no delete of the burst auto-destroys it (open finding)
-		s.set("pin", s.nextVal(fmt.Sprintf("b%dpin", bi)), false)
+		s.set("pin", s.nextVal(fmt.Sprintf("b%dpin", bi)), expNone)
 	}
 	var wg sync.WaitGroup
 	for wi, w := range st.W {
@@ -524,9 +536,13 @@ func (s *c16Sw) burst(bi int, st C16Step) string {
 				}
 				switch op.Kind {
 				case "set":
-					s.set(fmt.Sprintf("k%d", k%4), s.nextVal(tag), false)
+					s.set(fmt.Sprintf("k%d", k%4), s.nextVal(tag), expNone)
+				case "setpast": // a record whose expiry is already in the past (ShiftExpired will take it)
+					s.set(fmt.Sprintf("x%d", k%2), s.nextVal(tag), expPast)
+				case "setfuture": // a record with an expiry far in the future
+					s.set(fmt.Sprintf("f%d", k%2), s.nextVal(tag), expFuture)
 				case "setown":
-					s.set(fmt.Sprintf("s%d", wi%6), s.nextVal(tag), false)
+					s.set(fmt.Sprintf("s%d", wi%6), s.nextVal(tag), expNone)
 				case "delshared":
 					s.del(fmt.Sprintf("k%d", k%4))
 				case "inc":
@@ -662,10 +678,42 @@ func (s *c16Sw) run(sw C16Swamp) string {
 			s.shift(c16AllKeys()...)
 			s.teardownHappened()
 			s.class("auto-destroy-by-shift")
+		case "shiftexpsome":
+			// ShiftExpired that removes only the records whose expiry has passed; everything else (no expiry / future expiry)
+			// stays, the swamp must survive. Ms bit0: also write a future-expiry record first; bit1: HowMany 1.
+			s.quiesceIfStale()
+			s.set("x", s.nextVal("x"), expPast)
+			if st.Ms&1 != 0 {
+				s.set("f0", s.nextVal("f"), expFuture)
+			}
+			if st.Ms&2 != 0 {
+				s.shiftExpiredN(1)
+			} else {
+				s.shiftExpiredN(0)
+			}
+			s.class("partial-shift-expired")
+		case "delsome", "shiftsome":
+			// removes a drawn subset of the keys (Ms = bit mask over the key list); in restricted mode the pin record stays
+			s.quiesceIfStale()
+			var sub []string
+			for i, k := range c16AllKeys() {
+				if k != "pin" && st.Ms&(1<<(uint(i)%12)) != 0 {
+					sub = append(sub, k)
+				}
+			}
+			if len(sub) == 0 {
+				sub = []string{"k0"}
+			}
+			if st.Kind == "delsome" {
+				s.del(sub...)
+			} else {
+				s.shift(sub...)
+			}
+			s.class("partial-delete-or-shift")
 		case "shiftexp":
 			// never concurrent with anything else on the swamp
 			s.quiesceIfStale()
-			s.set("x", s.nextVal("x"), true)
+			s.set("x", s.nextVal("x"), expPast)
 			others := c16AllKeys()
 			for i, k := range others {
 				if k == "x" {
@@ -1035,7 +1083,7 @@ func genC16Plan(t *rapid.T, max int, pauses bool) []vsched.Action {
 func genC16Writers(t *rapid.T, maxW, maxOps int, deletes bool) []C16Writer {
 	var ws []C16Writer
 	n := rapid.IntRange(1, maxW).Draw(t, "nwriters")
-	kinds := []string{"set", "set", "set", "setown", "inc", "inc", "patch", "patch", "get"}
+	kinds := []string{"set", "set", "set", "setown", "setpast", "setfuture", "inc", "inc", "patch", "patch", "get"}
 	if deletes {
 		kinds = append(kinds, "del", "del")
 		if !pbt.Open("C16", c16WMark) {
@@ -1054,7 +1102,8 @@ func genC16Writers(t *rapid.T, maxW, maxOps int, deletes bool) []C16Writer {
 	return ws
 }
 
-var c16QuietEvents = []string{"close", "close", "closeduring", "closeduring", "destroy", "destroyduring", "delall", "shiftall", "shiftexp", "gap"}
+var c16QuietEvents = []string{"close", "close", "closeduring", "closeduring", "destroy", "destroyduring", "delall", "shiftall", "shiftexp", "gap",
+	"shiftexpsome", "shiftexpsome", "shiftexpsome", "delsome", "shiftsome"}
 
 // genC16Swamp draws the timeline of one swamp. slow = real listener periods are part of it.
 func genC16Swamp(t *rapid.T, free, slow bool) C16Swamp {
@@ -1098,6 +1147,13 @@ func genC16Swamp(t *rapid.T, free, slow bool) C16Swamp {
 			sw.Steps = append(sw.Steps, C16Step{Kind: "gap", Ms: rapid.SampledFrom([]int{0, 1, 20, 200}).Draw(t, "gapms")})
 		case "closeduring", "destroyduring":
 			sw.Steps = append(sw.Steps, C16Step{Kind: k, W: genC16Writers(t, 4, 3, dels)})
+		case "shiftexpsome":
+			sw.Steps = append(sw.Steps, C16Step{Kind: k, Ms: rapid.IntRange(0, 3).Draw(t, "flags")})
+			if rapid.Bool().Draw(t, "thenclose") {
+				sw.Steps = append(sw.Steps, C16Step{Kind: "close"})
+			}
+		case "delsome", "shiftsome":
+			sw.Steps = append(sw.Steps, C16Step{Kind: k, Ms: rapid.IntRange(1, 4095).Draw(t, "mask")})
 		default:
 			sw.Steps = append(sw.Steps, C16Step{Kind: k})
 		}
@@ -1217,9 +1273,10 @@ func genC16WitnessOrder(t *rapid.T) C16Scenario {
 
 // ---------------------------------------------------------------------------
 
-const c16RuleOpen = "timeline per swamp: 2–4 bursts of 1–5 concurrent writer goroutines × 1–5 requests (Set on 4 shared keys with unique values, IncrementInt64 / PatchTreasures(create) on per-writer keys, " +
+const c16RuleOpen = "timeline per swamp: 2–4 bursts of 1–5 concurrent writer goroutines × 1–5 requests (Set on 4 shared keys with unique values, Set with past / far-future expiry, IncrementInt64 / PatchTreasures(create) on per-writer keys, " +
 	"Delete / ShiftByKeys of single keys, Get) separated by a lifecycle step: Close() as the idle listener issues it, the same while the next burst's requests arrive (all begin after closing=1), " +
-	"Destroy RPC (quiet / while requests arrive), delete-all / shift-all / ShiftExpired ⇒ auto-destroy, a real idle period (slow facet: wait until the real listener evicted the instance); " +
+	"Destroy RPC (quiet / while requests arrive), delete-all / shift-all / ShiftExpired ⇒ auto-destroy, PARTIAL removals (ShiftExpired that takes only the records with a past expiry while records " +
+	"without expiry / with a future expiry remain; Delete / ShiftByKeys of a drawn subset) after which the swamp must still exist with every remaining acknowledged write, a real idle period (slow facet: wait until the real listener evicted the instance); " +
 	"write interval {0,1} s, close-after-idle {0,1,600} s (fast) / {0,1} s (slow, 16–32 swamps in parallel per case); 0–5 drawn vsched actions at 28 listener/close/destroy/handler sites; " +
 	"final: Close + re-summon (fast) or MarkShuttingDown (possibly while requests are in flight) → drain → StopHydra → fresh rig on the same root (slow), then GetAll. " +
 	"While the findings are open no teardown decision overlaps a request that began before it, and a pin record keeps bursts from emptying the swamp. " +
@@ -1243,9 +1300,9 @@ func c16CheckSites(t *testing.T) {
 	vsched.Activate(nil, false)
 	sw := &c16Sw{e: c16E, name: "c16i600w1/sitecheck/s", idle: 600, wi: 1, classes: map[string]bool{}}
 	sw.isl = rig.Island(sw.name)
-	sw.set("a", "1", false)
+	sw.set("a", "1", expNone)
 	sw.del("a") // last record: auto-destroy
-	sw.set("b", "2", false)
+	sw.set("b", "2", expNone)
 	sw.injectClose()
 	sw.destroy()
 	rep := vsched.Deactivate()
